@@ -723,7 +723,14 @@ def r5r6(ctx: Ctx) -> None:
         ok_each = []
         for x, a in srcs:
             if isinstance(x, ast.Call) and isinstance(x.func, ast.Attribute) and x.func.attr == "as_py" and not x.args:
-                inner = resolve_value(ctx, cb, x.func.value, a)
+                recv = x.func.value
+                if isinstance(recv, ast.Subscript) and isinstance(recv.slice, ast.Constant) and recv.slice.value in ("min", "max"):
+                    # pc.min_max(column)["min" | "max"]: one pass, same kernel - the field must be the right one
+                    inner = resolve_value(ctx, cb, recv.value, a)
+                    ok_each.append(recv.slice.value == want.split(".")[-1] and bool(inner)
+                                   and all(isinstance(y, ast.Call) and (dotted(y.func) or "") == "pc.min_max" for y, _b in inner))
+                    continue
+                inner = resolve_value(ctx, cb, recv, a)
                 ok_each.append(bool(inner) and all(isinstance(y, ast.Call) and (dotted(y.func) or "") == want for y, _b in inner))
             else:
                 ok_each.append(False)
